@@ -291,7 +291,7 @@ def C02_full_statement : Prop :=
 /-- the end offset of the root node -/
 def rootStopByte (x : Except Crash Outcome) : Option Int :=
   match x with
-  | .ok ⟨some (.node _ r _), _⟩ => some r.stop.byte
+  | .ok ⟨some (.node _ r _), _, _⟩ => some r.stop.byte
   | _ => none
 
 def noNum : String → Bool := fun _ => false
